@@ -21,6 +21,7 @@ pub fn scenario_regime(tier: &str, poor: bool) -> (Life, Bounds) {
         horizon: None,
         big: false,
         tick_faults: false,
+        bystander: false,
     };
     let b = if th {
         Bounds { max_depth: 400, max_faults: 1, wall_cap_s: 700.0, ..Default::default() }
@@ -49,6 +50,7 @@ pub fn scenario_big(tier: &str) -> (Life, Bounds) {
         horizon: None,
         big: true,
         tick_faults: false,
+        bystander: false,
     };
     let b = Bounds { max_depth: 400, max_faults: 1, wall_cap_s: if th { 400.0 } else { 25.0 }, ..Default::default() };
     (Life { cfg }, b)
